@@ -407,4 +407,143 @@ theorem scanDimen_eq (neg : Bool) (h : Head) (u : UnitSpec) (wf : h.WF)
         exact key 0 (by omega) (by omega) hex
 
 
+
+/-! ## totality -/
+
+
+/-- `scan_and_apply_units` never panics and what it returns is within `±max_dimen`
+(no hypothesis about C06-f here). -/
+theorem applyUnits_total (ip f : Int) (hip : 0 ≤ ip) (hip2 : ip ≤ 2147483647) (hf0 : 0 ≤ f) (hf : f ≤ 65536)
+    (u : UnitSpec) :
+    ∃ sc, applyUnits ip f u = .ok sc ∧ -1073741823 ≤ sc.val ∧ sc.val ≤ 1073741823 := by
+  have hM : maxDimen = 1073741823 := rfl
+  have viaSpec : ∀ u', (applyUnits ip f u').toSR = Spec.units ip f false 0 u' →
+      ∃ sc, applyUnits ip f u' = .ok sc ∧ -1073741823 ≤ sc.val ∧ sc.val ≤ 1073741823 := by
+    intro u' h
+    obtain ⟨v, n, o, h2, h3⟩ := units_bound ip f false 0 u'
+    rw [h2] at h
+    cases hr : applyUnits ip f u' with
+    | panic => rw [hr] at h; simp [SRes.toSR] at h
+    | ok sc =>
+      rw [hr] at h
+      simp only [SRes.toSR, Spec.SR.ok.injEq] at h
+      exact ⟨sc, rfl, by omega, by omega⟩
+  cases u with
+  | fil ls => exact viaSpec _ (applyUnits_fil ip f hip hf0 hf ls)
+  | phys pu => exact viaSpec _ (applyUnits_phys ip f hip hip2 hf0 hf pu)
+  | bad => exact viaSpec _ (applyUnits_bad ip f hip hip2 hf0 hf)
+  | internal v =>
+    simp only [applyUnits]
+    have hx : xnOverD v f 65536 ≠ .panic := by
+      unfold xnOverD
+      rw [if_neg (by omega), if_neg (by omega)]
+      simp only []
+      split <;> simp
+    cases hq : xnOverD v f 65536 with
+    | panic => exact absurd hq hx
+    | overflow =>
+      simp only [handleOverflow]
+      exact ⟨_, rfl, by simp only []; split <;> omega, by simp only []; split <;> omega⟩
+    | ok qr =>
+      obtain ⟨a, r⟩ := qr
+      simp only []
+      unfold nxPlusY
+      by_cases h0 : ip = 0
+      · rw [if_pos h0]
+        simp only []
+        -- a is within ±max_dimen because xnOverD answered ok
+        unfold xnOverD at hq
+        rw [if_neg (by omega), if_neg (by omega)] at hq
+        simp only [] at hq
+        split at hq
+        · simp at hq
+        · rename_i hb
+          simp only [Res.ok.injEq, Prod.mk.injEq] at hq
+          exact ⟨_, rfl, by simp only []; omega, by simp only []; omega⟩
+      · rw [if_neg h0]
+        simp only []
+        by_cases hc : (-maxDimen ≤ v * ip + a ∧ v * ip + a ≤ maxDimen)
+        · rw [if_pos hc]; exact ⟨_, rfl, by simp only []; omega, by simp only []; omega⟩
+        · rw [if_neg hc]
+          simp only [handleOverflow]
+          exact ⟨_, rfl, by simp only []; split <;> omega, by simp only []; split <;> omega⟩
+
+theorem mulSign_total (r : SRes) (sign : Int) (hs : sign = 1 ∨ sign = -1 ∨ sign = 0)
+    (hr : ∃ sc, r = .ok sc ∧ -1073741823 ≤ sc.val ∧ sc.val ≤ 1073741823) :
+    ∃ sc, mulSign r sign = .ok sc ∧ -1073741823 ≤ sc.val ∧ sc.val ≤ 1073741823 := by
+  obtain ⟨sc, rfl, h1, h2⟩ := hr
+  simp only [mulSign]
+  rcases hs with rfl | rfl | rfl
+  · rw [if_pos (by simp [inI32]; omega)]; exact ⟨_, rfl, by simp only []; omega, by simp only []; omega⟩
+  · rw [if_pos (by simp [inI32]; omega)]; exact ⟨_, rfl, by simp only []; omega, by simp only []; omega⟩
+  · rw [if_pos (by simp [inI32])]; exact ⟨_, rfl, by simp only []; omega, by simp only []; omega⟩
+
+/-- Heads the scanner can be given, *including* the internal integer `-2^31`. -/
+def Head.WF32 : Head → Prop
+  | .const radix ds fr =>
+    (radix = 10 ∨ radix = 8 ∨ radix = 16) ∧ (∀ d ∈ ds, (d : Int) < radix) ∧
+      (∀ fd, fr = some fd → ∀ d ∈ fd, d < 10)
+  | .point fr => ∀ d ∈ fr, d < 10
+  | .int i => -2147483648 ≤ i ∧ i ≤ 2147483647
+  | .dimen d => -2147483648 ≤ d ∧ d ≤ 2147483647
+
+/-- Totality of `scan_dimen` (for C09): on every 32-bit input the model answers a value
+within `±max_dimen` and an error count — never `panic`. -/
+theorem scanDimen_total (neg : Bool) (h : Head) (u : UnitSpec) (wf : h.WF32) :
+    ∃ sc, scanDimen neg h u = .ok sc ∧ -1073741823 ≤ sc.val ∧ sc.val ≤ 1073741823 := by
+  have hM : maxDimen = 1073741823 := rfl
+  have hneg : ((if neg then (-1 : Int) else 1) = 1 ∨ (if neg then (-1 : Int) else 1) = -1 ∨
+      (if neg then (-1 : Int) else 1) = 0) := by cases neg <;> simp
+  cases h with
+  | dimen d =>
+    simp only [scanDimen]
+    split
+    · exact mulSign_total _ _ hneg ⟨_, rfl, by simp [hM], by simp [hM]⟩
+    · rename_i hc
+      exact mulSign_total _ _ hneg ⟨_, rfl, by simp only []; omega, by simp only []; omega⟩
+  | point fr =>
+    have hb := scanFraction_bound fr wf
+    simp only [scanDimen]
+    exact mulSign_total _ _ hneg (applyUnits_total 0 _ (by omega) (by omega) hb.1 hb.2 u)
+  | int i =>
+    simp only [Head.WF32] at wf
+    simp only [scanDimen]
+    have hs : 0 ≤ satAbs i ∧ satAbs i ≤ 2147483647 := by unfold satAbs; split <;> (try split) <;> omega
+    have hsg : ((if neg then (-1 : Int) else 1) * sgn i = 1 ∨ (if neg then (-1 : Int) else 1) * sgn i = -1 ∨
+        (if neg then (-1 : Int) else 1) * sgn i = 0) := by
+      have h3 : sgn i = 1 ∨ sgn i = -1 ∨ sgn i = 0 := by
+        unfold sgn; split
+        · exact Or.inl rfl
+        · split
+          · exact Or.inr (Or.inl rfl)
+          · exact Or.inr (Or.inr rfl)
+      cases neg <;> rcases h3 with h | h | h <;> rw [h] <;> simp
+    exact mulSign_total _ _ hsg (applyUnits_total _ 0 hs.1 hs.2 (by omega) (by omega) u)
+  | const radix ds fr =>
+    obtain ⟨hr, hd, hfd⟩ := wf
+    have hrange := scan_const_range radix hr ds hd
+    simp only [scanDimen]
+    generalize scanConst radix ds = c at *
+    obtain ⟨ip, e⟩ := c
+    simp only [] at hrange ⊢
+    have key : ∀ f : Int, 0 ≤ f → f ≤ 65536 →
+        ∃ sc, (match mulSign (applyUnits ip f u) (if neg = true then -1 else 1) with
+          | SRes.ok sc => SRes.ok { val := sc.val, nerr := sc.nerr + e, order := sc.order }
+          | SRes.panic => SRes.panic) = .ok sc ∧ -1073741823 ≤ sc.val ∧ sc.val ≤ 1073741823 := by
+      intro f hf0 hf
+      obtain ⟨sc, h1, h2, h3⟩ := mulSign_total _ _ hneg (applyUnits_total ip f hrange.1 hrange.2 hf0 hf u)
+      rw [h1]
+      exact ⟨_, rfl, h2, h3⟩
+    cases fr with
+    | none => exact key 0 (by omega) (by omega)
+    | some fd =>
+      simp only []
+      by_cases h10 : radix = 10
+      · rw [if_pos h10]
+        have hb := scanFraction_bound fd (hfd fd rfl)
+        exact key _ hb.1 hb.2
+      · rw [if_neg h10]
+        exact key 0 (by omega) (by omega)
+
+
 end C06
